@@ -58,7 +58,7 @@ static void exact_sweep(int t, int bb, int n_out, int lg, int shard, int nshards
             // all-ones digits
             extra.push_back(~(unit - 1)); extra.push_back(~(unit - 1) + halfu); extra.push_back(~(unit - 1) + halfu - 1);
         }
-        auto one = [&](U a) {
+        auto one = [&](U a, bool in_mean) {
             Torus32 b = rng.i32();
             gin.s->a[0] = (int32_t) a; gin.s->b = b;
             for (int i = 0; i < n_out; i++) gout.s->a[i] = rng.i32();
@@ -76,20 +76,20 @@ static void exact_sweep(int t, int bb, int n_out, int lg, int shard, int nshards
             int32_t err = (int32_t) (a - R);  // a - R(a)
             bool ok = (R & (unit - 1)) == 0 && (int64_t) iabs64(err) <= (int64_t) halfu;
             if (!ok) out.viol("ks-exact:rounding:" + lay(t, bb), J().i("t", t).i("basebit", bb).i("n_out", n_out).u("a", a).u("removed", R).i("a_minus_removed", err).u("unit", unit));
-            sum_err[1] += err; cnt[1]++;
+            if (in_mean) { sum_err[1] += err; cnt[1]++; }   // boundary extras are checked but kept out of the exhaustive mean
             if (iabs64(err) > maxabs) maxabs = iabs64(err);
             if ((U) iabs64(err) == halfu) ties++;
         };
         VH_OP("%s:n_out=%d:t=%d:basebit=%d", use_translate ? "lweKeySwitchTranslate_fromArray" : "lweKeySwitch", n_out, t, bb);
         if (sbit == 1 || lg < 32) {
-            if (lg == 32) for (uint64_t v = lo; v < hi; v++) one((U) v);
-            else for (uint64_t s = lo; s < hi; s++) one((U) (s * width + rng.below(width)));
+            if (lg == 32) for (uint64_t v = lo; v < hi; v++) one((U) v, true);
+            else for (uint64_t s = lo; s < hi; s++) one((U) (s * width + rng.below(width)), true);
         } else {
             // key bit 0 needs no exhaustive sweep of its own (no digit of a can matter): stratified 2^24
             uint64_t w2 = 1ull << 8; uint64_t l2 = lo >> 8, h2 = hi >> 8;
-            for (uint64_t s = l2; s < h2; s++) one((U) (s * w2 + rng.below(w2)));
+            for (uint64_t s = l2; s < h2; s++) one((U) (s * w2 + rng.below(w2)), true);
         }
-        for (U x: extra) one(x);
+        for (U x: extra) one(x, false);
         if (!gout.g.canary_ok() || !gin.g.canary_ok()) out.viol("ks-exact:underrun", J().i("t", t).i("basebit", bb).i("n_out", n_out));
     }
     delete_LweParams(Pin1);
